@@ -27,8 +27,15 @@ claim("C05",
       "VDICore.h oracle names, decided per path by z3; witness images are replayed through the unpatched VDI class.",
       TRUST, "symbolic execution of vdi.py + z3 equivalence against a specification oracle", "4.5")
 
+claim("C04",
+      "For fixed and dynamic VHDs, every enumerated block size and every symbolic file size, footer placement (512/511 "
+      "bytes), header fields, BAT content and 512-aligned request of up to N blocks, the real read_footer/VHD.__init__/"
+      "FixedDisk/DynamicDisk/BlockAllocationTable code returns exactly the bytes the VHD-specification oracle names "
+      "(reads past EOF modelled as short); decided per path by z3, witnesses replayed through the unpatched VHD class.",
+      TRUST, "symbolic execution of vhd.py + z3 equivalence against a specification oracle", "4.4")
+
 PENDING = "check not built yet in this round (planned: see DESIGN.md section 4)"
-for _p in ("C01", "C02", "C04", "C06", "C07", "C08", "C09", "C10", "C11", "C12", "C13", "C14", "C15", "C17", "C20"):
+for _p in ("C01", "C02", "C06", "C07", "C08", "C09", "C10", "C11", "C12", "C13", "C14", "C15", "C17", "C20"):
     NOT_APPLICABLE[_p] = PENDING
 NOT_APPLICABLE["C16"] = ("the property's content (cstruct writers, AES-GCM, PBKDF2) sits behind C boundaries that would have "
                          "to be stubbed; nothing of the repository's own arithmetic would remain to be decided (DESIGN 5)")
